@@ -7,6 +7,15 @@ PENDING = "check not built yet in this session (construction order: DESIGN.md se
 NOT_APPLICABLE = {("C%02d" % i): PENDING for i in range(1, 21)}
 
 TEXT = {
+    "C05": {
+        "text": "Set/IsSet agreement inside the current size, minimal auto-expansion with exactly the continuation bits it must set and nothing else changed, "
+                "the fixed-bitmap no-op, exact consumption of the continuation-bit chain by Unpack (binary and hex, any trailing bytes) and termination of the unpack loop are "
+                "theorems for every block size B >= 1 and every index; the bitmap model (including the state a failed Unpack leaves behind and the panics of malformed states) "
+                "is compared with field.Bitmap on exhaustive single indices, pairs, packed bitmaps and operation histories for B = 1..16.",
+        "design_ref": "DESIGN.md section 6 C05",
+        "note": "Trusted: Coq kernel, hand-written model of field/bitmap.go (validated by correspondence), extraction/driver, Go harness and its independent reference bit set. Message-level clauses are added with the message model.",
+        "technique": "Rocq theorems over a Gallina model + differential correspondence",
+    },
     "C16": {
         "text": "Write/read round trip for every representable length and every fragmentation of the stream (io.ReadFull is modelled over an arbitrary list of chunks), "
                 "the documented format of each header, refusal of every unrepresentable length and safety of ReadFrom on arbitrary bytes with early end are "
